@@ -1535,10 +1535,104 @@ def fam_control_random(tier, seed, extra=()):
     return out
 
 
+# ------------------------------------------------------------------------------------------------
+# random values built along different routes, compared with == / != (C19); the reference equality is structural
+# with IEEE floats, different kinds are unequal
+def _ref_eq(a, b):
+    if type(a) != type(b):
+        return False
+    if isinstance(a, float):
+        return a == b
+    if isinstance(a, (list, tuple)):
+        return len(a) == len(b) and all(_ref_eq(x, y) for x, y in zip(a, b))
+    if isinstance(a, dict):
+        return a.keys() == b.keys() and all(_ref_eq(a[k], b[k]) for k in a)
+    return a == b
+
+
+class _ValGen:
+    def __init__(self, rnd):
+        self.r = rnd
+
+    def scalar(self):
+        r = self.r
+        c = r.random()
+        if c < 0.35:
+            return r.choice([0, 1, 2, -1, 7, MAX, MIN + 1, (1 << 53) + 1, 1 << 53])
+        if c < 0.6:
+            return r.choice([0.0, -0.0, 1.0, 2.5, math.nan, math.inf, 1e16, 0.1])
+        if c < 0.75:
+            return r.random() < 0.5
+        if c < 0.9:
+            return r.choice(["", "a", "ab", "é", "a€"])
+        return None
+
+    def value(self, d):
+        r = self.r
+        c = r.random()
+        if d <= 0 or c < 0.45:
+            return self.scalar()
+        if c < 0.75:
+            return [self.value(d - 1) for _ in range(r.randint(0, 3))]
+        if c < 0.9:
+            return tuple(self.value(d - 1) for _ in range(r.randint(2, 3)))
+        return {k: self.value(d - 1) for k in r.sample(["a", "b", "c"], r.randint(0, 2))}
+
+    def render(self, v, route=0):
+        """SimpleSL expression producing v; `route` picks among producers for arrays"""
+        r = self.r
+        if v is None:
+            return "()"
+        if isinstance(v, bool):
+            return "true" if v else "false"
+        if isinstance(v, int):
+            return str(v) if v >= 0 else f"(0 - {-v})"
+        if isinstance(v, float):
+            if math.isnan(v):
+                return "(0.0 / 0.0)"
+            if math.isinf(v):
+                return "(1.0 / 0.0)" if v > 0 else "(0.0 - 1.0 / 0.0)"
+            if v == 0 and math.copysign(1.0, v) < 0:
+                return "(0.0 * (0.0 - 1.0))"
+            return repr(v) if v >= 0 else f"(0.0 - {repr(-v)})"
+        if isinstance(v, str):
+            return '"' + v + '"'
+        if isinstance(v, tuple):
+            return "(" + ", ".join(self.render(x, r.randint(0, 3)) for x in v) + ")"
+        if isinstance(v, dict):
+            return "struct{" + ", ".join(f"{k} := {self.render(x, r.randint(0, 3))}" for k, x in v.items()) + "}"
+        elems = [self.render(x, r.randint(0, 3)) for x in v]
+        lit = "[" + ", ".join(elems) + "]"
+        if route == 1 and len(v) >= 1:      # concatenation
+            k = r.randint(0, len(v))
+            return "([" + ", ".join(elems[:k]) + "] + [" + ", ".join(elems[k:]) + "])"
+        if route == 2:                      # slice of a longer, wider-typed array
+            return "[" + ", ".join(['"pad"'] + elems + ["()"]) + f"][1:{len(v) + 1}]"
+        if route == 3:                      # collect from an iterator
+            return "(" + lit + "~ $])"
+        return lit
+
+
+def fam_eq_random(tier, seed, extra=()):
+    out = []
+    n = 300 if tier == "quick" else 3000
+    rnd = random.Random(424243 * (seed + 1))
+    for k in range(n):
+        g = _ValGen(random.Random(rnd.getrandbits(64)))
+        a = g.value(2)
+        b = a if rnd.random() < 0.5 else g.value(2)     # half of the pairs are the same value along two routes
+        ea, eb = g.render(a, rnd.randint(0, 3)), g.render(b, rnd.randint(0, 3))
+        exp = (_ref_eq(a, b), not _ref_eq(a, b), _ref_eq(b, a))
+        out.append(Case(f"eqr/{k}/rt", f"f := (u: int) -> (bool, bool, bool) {{ x := {ea}; y := {eb}; return (x == y, x != y, y == x) }}; f(0)", exp,
+                        what=f"{a!r} vs {b!r}"))
+        out.append(Case(f"eqr/{k}/folded", f"x := {ea}; y := {eb}; (x == y, x != y, y == x)", exp, what=f"{a!r} vs {b!r} (constants)"))
+    return out
+
+
 FAMILIES = {
     "unary:-": fam_unary, "bitwise": fam_bitwise, "compare": fam_compare, "float": fam_float, "eq": fam_eq,
     "eq_array": fam_eq_array, "index": fam_index, "slice": fam_slice, "order": fam_order, "control": fam_control,
-    "fold": fam_fold, "logic": fam_fold_logic, "twins": fam_twins, "twins_random": fam_twins_random, "control_random": fam_control_random,
+    "fold": fam_fold, "logic": fam_fold_logic, "twins": fam_twins, "twins_random": fam_twins_random, "control_random": fam_control_random, "eq_random": fam_eq_random,
 }
 
 
